@@ -9,6 +9,9 @@ func genConfig(r *Rng) Config {
 	c.PageSize = pageSizes[r.Pick([]int{30, 14, 8, 26, 6, 5, 5, 6})]
 	c.AutoVacuum = r.Pick([]int{5, 3, 2})
 	c.AppAutoCkpt = []int{0, 1, 10, 1000}[r.Pick([]int{3, 2, 2, 5})]
+	if r.Chance(0.35) {
+		c.AppCachePages = []int{2, 8, 20}[r.Intn(3)]
+	}
 	c.Tables = r.Range(1, 3)
 	c.InitRows = []int{0, 5, 40, 200}[r.Pick([]int{2, 3, 4, 2})]
 	c.InitRowSize = []int{10, 100, 600, 3000}[r.Pick([]int{3, 4, 2, 1})]
